@@ -263,6 +263,7 @@ pub fn c02() -> PropDef {
             )
         },
         long: Some(({ let mut c = GenCfg::long_sched(); c.terms = vec![TermClass::ShortCircuit, TermClass::WithIndex]; c }, 800, 4000)),
+        growth: Some(({ let mut c = GenCfg::growth_sched(); c.terms = vec![TermClass::ShortCircuit, TermClass::WithIndex]; c }, 300, 2500)),
     }
 }
 
@@ -515,19 +516,34 @@ fn check_c10(case: &Case) -> Verdict {
         v.label("revoked park: exact bound not asserted");
     }
     if case.is_sched() && r.sched.revoked == 0 {
-        if finder_after > 0 {
-            v.fail = Some(Verdict::fail(
-                format!("the thread that found the match evaluated {finder_after} more closure calls afterwards"),
-                generic_sig(case, "finder-continues"),
-            ));
-            return v;
+        // "a constant number of chunks per thread": after the first match in time a thread may finish the chunk it holds and
+        // start at most EXTRA_CHUNKS more (the pinned tree starts none; the statement allows any constant, so a small one is
+        // allowed here - what must not happen is work that grows with the remaining input, which the budget of the endless
+        // source and the metamorphic run below decide)
+        const EXTRA_CHUNKS: usize = 4;
+        let finder_started = r.log[t_star + 1..]
+            .iter()
+            .filter(|e| {
+                e.tid == finder
+                    && e.tid != 0
+                    && if first_closure_is_stage0 {
+                        e.kind == Kind::Stage && e.stage == 0
+                    } else {
+                        e.kind == Kind::Pred
+                    }
+            })
+            .count();
+        let _ = finder_after;
+        let mut all = per_tid.clone();
+        if finder != 0 {
+            all.insert(finder, finder_started);
         }
-        for (tid, n) in &per_tid {
+        for (tid, n) in &all {
             let c = chunk_of(*tid);
-            if *n > c {
+            if c != usize::MAX && *n > c.saturating_mul(1 + EXTRA_CHUNKS) {
                 v.fail = Some(Verdict::fail(
                     format!(
-                        "after a match was known thread {tid} still started {n} source elements; its chunk size is {c} (at most the rest of the chunk it holds is allowed)"
+                        "after a match was known thread {tid} still started {n} source elements; its chunk size is {c} (allowed: the rest of the chunk it holds and {EXTRA_CHUNKS} more chunks)"
                     ),
                     generic_sig(case, "work-after-match"),
                 ));
@@ -535,9 +551,10 @@ fn check_c10(case: &Case) -> Verdict {
             }
         }
         let max_chunk = run.map(|x| x.workers.iter().map(|w| w.1).max().unwrap_or(1)).unwrap_or(1);
-        if case.source.is_instrumented_iter() && asked_after > t_res * max_chunk {
+        let ask_bound = t_res * max_chunk * (1 + EXTRA_CHUNKS);
+        if case.source.is_instrumented_iter() && asked_after > ask_bound {
             v.fail = Some(Verdict::fail(
-                format!("after a match was known the source iterator was asked {asked_after} more times (bound {} = threads x chunk)", t_res * max_chunk),
+                format!("after a match was known the source iterator was asked {asked_after} more times (bound {ask_bound} = threads x chunk x {})", 1 + EXTRA_CHUNKS),
                 generic_sig(case, "pulls-after-match"),
             ));
             return v;
@@ -616,6 +633,7 @@ pub fn c10() -> PropDef {
             )
         },
         long: None,
+        growth: None,
     }
 }
 
